@@ -10,7 +10,7 @@
 From Coq Require Import List ZArith Bool String.
 From Coq.Strings Require Import Byte.
 Import ListNotations.
-From Zap Require Import Base.Wire C03.Lang C03.Arith C03.Model C03.Proofs C03.Theorems.
+From Zap Require Import Base.Wire C03.Lang C03.Arith C03.Model C03.Proofs C03.Theorems C03.Effects.
 Local Open Scope Z_scope.
 
 (* The low-bits theorem.  A chain of integer conversions T0 -> T1 -> ... -> Tn -> T0' (T0' of the
@@ -149,6 +149,61 @@ Theorem C03_any_order :
   /\ no_shadow (t_any T) [] = true.
 Proof. exact (conj any_iface_order any_no_shadow). Qed.
 Print Assumptions C03_any_order.
+
+(* CONCURRENT CALLS.  Everything above is about a constructor that runs alone.  zap.Any and the
+   constructors are called from many goroutines at once (every key/value pair of a SugaredLogger call
+   goes through zap.Any), and they stay functions of their arguments there because of a fact about
+   their source text, regenerated on every run (Gen/CtorEffects.v): what each of them -- the 78
+   constructors, their helpers, zap.Any, the dispatch method anyFieldC[T].Any, everything they call or
+   hand on as a function value ([effects_closedb]) -- touches outside its own frame.  [pure_ctorsb]: no
+   such variable is ever written by them (assigned, incremented, address taken), and every one they
+   read is frozen: a constant of another package (zapcore.XxxType) or a package-level variable that no
+   code of the package writes and that is not exported (_minTimeInt64).  A dispatch variable, a scratch
+   Field, a cache or a counter parked at package level breaks this theorem by name. *)
+Theorem C03_constructors_pure : pure_ctorsb = true /\ effects_closedb = true.
+Proof. exact (conj constructors_pure effects_closed). Qed.
+Print Assumptions C03_constructors_pure.
+
+(* What that buys, for EVERY set of threads and EVERY schedule.  A thread is a call of a tabulated
+   function c whose accesses outside its frame are those listed for c ([Some c]; what it does inside
+   its frame is arbitrary), or any other code of the process ([None]: reads what it likes, writes only
+   variables that are not frozen).  Threads move one access at a time in the order [sched] says.
+   Then at every moment of every interleaving, what a constructor call is going to return is what it
+   returns when it runs alone from the initial state -- in particular the Field it has returned, once
+   it has ([PRet r]): the Field the theorems above are about. *)
+Theorem C03_schedule_free : forall (R V : Type) (ts : list (option name * prog R V)), Forall call_ok ts ->
+  forall sched st j c p, nth_error ts j = Some (Some c, p) ->
+  exists p', nth_error (snd (exec R V sched st (tagged ts))) j = Some (true, p') /\
+             run R V (fst (exec R V sched st (tagged ts))) p' = run R V st p /\
+             (forall r, p' = PRet r -> r = run R V st p).
+Proof. exact (fun R V => @schedule_free R V). Qed.
+Print Assumptions C03_schedule_free.
+
+(* The hypothesis is not decoration.  zap.Any with its dispatch variable hoisted to package level
+   ("so that it takes no space in Any's frame") is, alone, the same function; its footprint is
+   {write c, read c}; and under the schedule 0 1 0 of two calls Any("k", int64(22864)), Any("k", uint64(7))
+   the first returns a Uint64 field holding 0 -- anyFieldC[uint64].Any's lenient assertion swallows the
+   type mismatch.  The shape the source has (a local) returns its own Field under the same schedule. *)
+Example C03_example_hoisted_dispatch_interferes :
+  let ts := [(true, any_hoisted (TNum NInt64) [] [x6b] (VI 22864)); (true, any_hoisted (TNum NUint64) [] [x6b] (VI 7))] in
+  let st0 : store name := fun _ => [] in
+  fp_within [(($"c"), AWrite); (($"c"), ARead)] (any_hoisted (TNum NInt64) [] [x6b] (VI 22864)) /\
+  run _ _ st0 (any_hoisted (TNum NInt64) [] [x6b] (VI 22864)) = run _ _ st0 (any_local (TNum NInt64) [] [x6b] (VI 22864)) /\
+  run _ _ st0 (any_local (TNum NInt64) [] [x6b] (VI 22864)) =
+    Some {| f_ty := 11; f_key := [x6b]; f_int := 22864; f_str := []; f_ifc := VNil |} /\
+  nth_error (snd (exec _ _ [0%nat; 1%nat; 0%nat] st0 ts)) 0 =
+    Some (true, PRet (Some {| f_ty := 18; f_key := [x6b]; f_int := 0; f_str := []; f_ifc := VNil |})).
+Proof.
+  split; [apply any_hoisted_within|]. split; [apply any_hoisted_alone|]. vm_compute. split; reflexivity.
+Qed.
+Example C03_example_local_dispatch_within_empty_footprint :
+  fp_within [] (any_local (TNum NInt64) [] [x6b] (VI 22864)) /\ In (($"Any"), []) eff.
+Proof. split; [apply any_local_within|]. vm_compute. tauto. Qed.
+Example C03_example_effects_obligation_discriminates :
+  pure_tableb [(($"Any"), [(($"c"), AWrite); (($"c"), ARead)])] [$"c"] = false /\
+  pure_tableb [(($"Time"), [(($"time.Local"), ARead)])] [] = false /\
+  pure_tableb [(($"Time"), [(($"_minTimeInt64"), ARead); (($"zapcore.TimeType"), ARead)])] [$"c"] = true.
+Proof. vm_compute. repeat split; reflexivity. Qed.
 
 (* Fields built from the same input are the same Field and compare equal -- also when time.Local
    was re-pointed between the two constructor calls ([la] / [la']) *)
